@@ -144,10 +144,9 @@ theorem exprIsNumber_total (env : Env) (vars : List (String × Ty)) : (e : Expr)
       · exact ⟨false, rfl⟩
       · exact ⟨br, hr⟩
 
-theorem exprIsString_total (env : Env) (vars : List (String × Ty)) (e : Expr) (hg : goodExpr e = true)
-    (hc : operandAccessErrs env vars e = []) : ∃ b, exprIsString env vars e = some b := by
-  cases e with
-  | path p =>
+theorem exprIsString_total (env : Env) (vars : List (String × Ty)) : (e : Expr) → goodExpr e = true →
+    operandAccessErrs env vars e = [] → ∃ b, exprIsString env vars e = some b
+  | .path p, hg, hc => by
     cases p with
     | nil => simp [goodExpr] at hg
     | cons x rest =>
@@ -155,17 +154,19 @@ theorem exprIsString_total (env : Env) (vars : List (String × Ty)) (e : Expr) (
       simp only [operandAccessErrs] at hc
       obtain ⟨ty, hty⟩ := checkAccessExpr_typeable env vars x rest hg hc
       exact ⟨ty == .name "string", by simp [exprIsString, hty]⟩
-  | lit v => cases v <;> simp [exprIsString]
-  | not e => exact ⟨false, rfl⟩
-  | paren e => exact ⟨false, rfl⟩
-  | bin o l r => exact ⟨false, rfl⟩
-  | none => exact ⟨false, rfl⟩
+  | .lit v, _, _ => by cases v <;> simp [exprIsString]
+  | .not e, _, _ => ⟨false, rfl⟩
+  | .paren e, hg, hc => by
+    simp only [goodExpr] at hg
+    simp only [operandAccessErrs] at hc
+    simpa [exprIsString] using exprIsString_total env vars e hg hc
+  | .bin o l r, _, _ => ⟨false, rfl⟩
+  | .none, _, _ => ⟨false, rfl⟩
 
 /-- a checked operand can be classified as string or not without raising -/
-theorem exprIsString_checked (env : Env) (vars : List (String × Ty)) (e : Expr) (hg : goodExpr e = true)
-    (hc : checkExpr env vars e = some []) : ∃ b, exprIsString env vars e = some b := by
-  cases e with
-  | path p =>
+theorem exprIsString_checked (env : Env) (vars : List (String × Ty)) : (e : Expr) → goodExpr e = true →
+    checkExpr env vars e = some [] → ∃ b, exprIsString env vars e = some b
+  | .path p, _, hc => by
     simp only [checkExpr] at hc
     split at hc
     · simp at hc
@@ -173,11 +174,14 @@ theorem exprIsString_checked (env : Env) (vars : List (String × Ty)) (e : Expr)
       · simp at hc
       · rename_i ty hty
         exact ⟨ty == .name "string", by simp [exprIsString, hty]⟩
-  | lit v => cases v <;> simp [exprIsString]
-  | not e => exact ⟨false, rfl⟩
-  | paren e => exact ⟨false, rfl⟩
-  | bin o l r => exact ⟨false, rfl⟩
-  | none => exact ⟨false, rfl⟩
+  | .lit v, _, _ => by cases v <;> simp [exprIsString]
+  | .not e, _, _ => ⟨false, rfl⟩
+  | .paren e, hg, hc => by
+    simp only [goodExpr] at hg
+    simp only [checkExpr] at hc
+    simpa [exprIsString] using exprIsString_checked env vars e hg hc
+  | .bin o l r, _, _ => ⟨false, rfl⟩
+  | .none, _, _ => ⟨false, rfl⟩
 
 /-- a checked operand can be classified as boolean or not without raising -/
 theorem exprIsBoolean_total (env : Env) (vars : List (String × Ty)) : (e : Expr) → goodExpr e = true →
